@@ -208,6 +208,12 @@ def normal_jobs(r, n: int, prefix: str, max_boards: int = 3) -> List[tuple]:
                'teams': (rand_id(r).strip() or 'a', rand_id(r).strip() or 'b'),
                'twice': k % 8 == 6}
         jobs.append((f'{prefix}{k}', cfg, 'normal', None))
+    # a long session: twelve boards (two-digit board numbers), mostly passed out
+    boards = rand_boards(r, 12)
+    played = {r.randrange(1, 13), 10 + r.randrange(0, 3)}
+    styles = [{'auction': 'weak', 'passout_boards': set(range(1, 13)) - played}] * 4
+    jobs.append((f'{prefix}long', {'boards': boards, 'seed': r.randrange(1 << 30), 'styles': styles,
+                                   'vary': True, 'policy_spec': ('random', 0.05)}, 'normal', None))
     return jobs
 
 
